@@ -19,6 +19,32 @@ def run(ctx):
     methods, deny, read, write = classify_methods(F)
     ER.clause_validate_before_mutate(R, F, CG)
     ER.clause_validator_rows(R, F)
+    # "commit or reorg while a block is under construction is always rejected": also when the call would change nothing (a
+    # reorg to the current height) - every success path of the two operations passes the boundary validator, not only the
+    # paths that write
+    from tablerules import must_pass_on_success as _mpos
+    em_ = ER.engine_methods(F)
+    n_bv = 0
+    for opn in ("reorg", "commit_to_db"):
+        f_ = em_.get(opn)
+        if f_ is None:
+            continue
+        vnames = set(ER.VALIDATORS) | set(ER.discovered_validators(F, em_))
+        vcalls = [c for c in f_.calls() if not f_.is_cleanup(c.bb) and (c.method or "") in vnames and ER.err_propagated(f_, c)]
+        n_bv += 1
+        ok_v = bool(vcalls) and _mpos(f_, [c.bb for c in vcalls])
+        if not ok_v:
+            # the guard written in place (`if waiting_tx_count != 0 { return Err }`): its passing edge dominates every return
+            from terms import edge_dominates as _ed
+            ges = list(ER._waiting_guard_edges(f_))
+            eb5 = set(f_.error_blocks())
+            rets = [rb for rb in f_.return_blocks() if rb not in eb5]
+            ok_v = bool(ges) and bool(rets) and all(any(_ed(f_, e, rb) for e in ges) for rb in rets)
+        R.ob(ok_v, "DOM-all", f_.where(), "DOM-all|%s|boundary-validator" % opn,
+             "%s can return Ok without having passed the block-boundary validator: a call made while a block is under construction is "
+             "accepted on that path (it may change nothing, but the caller is told the chain is at a boundary)" % opn,
+             sample={"rule": "DOM-all", "fn": opn, "step": "require_no_waiting_txes()? on every success path"})
+    R.floor("boundary_validated_operations", n_bv, 2)
     ER.clause_select_bytes(R, F)
     ER.clause_decode_before_mutate(R, F, write)
     ER.clause_drain_pairing(R, F)
